@@ -159,3 +159,36 @@ pub open spec fn is_raw_text_parent(n: Option<LocalName>, scripting: bool) -> bo
 /// R25 model of str::len (ASSUMED): the length in bytes
 #[verifier::external_body]
 pub fn str_len(s: &str) -> (r: usize) ensures r == s.spec_bytes().len() { unimplemented!() }
+
+// ---- start tags (WHATWG "serializing HTML fragments": the start tag and its attributes) ----
+pub type AttrRef<'a> = (&'a QualName, &'a str);
+/// the prefix an attribute name is written with: none in no namespace, "xml:" / "xlink:" in those namespaces, "xmlns:"
+/// in the XMLNS namespace unless the local name is xmlns itself.  (Any other namespace cannot come out of the HTML parser;
+/// the code writes a placeholder prefix for it, marked FIXME in the repository - mirrored here.)
+pub open spec fn attr_prefix(ns: Namespace, local: LocalName) -> Seq<u8> {
+    if ns == ns!() { Seq::<u8>::empty() }
+    else if ns == ns!(xml) { b"xml:"@ }
+    else if ns == ns!(xmlns) { if local == local_name!("xmlns") { Seq::<u8>::empty() } else { b"xmlns:"@ } }
+    else if ns == ns!(xlink) { b"xlink:"@ }
+    else { b"unknown_namespace:"@ }
+}
+/// ` name="escaped value"` for the first n attributes
+pub open spec fn attrs_ser(attrs: Seq<AttrRef>, n: int) -> Seq<u8>
+    decreases n
+{
+    if n <= 0 { Seq::<u8>::empty() }
+    else {
+        let a = attrs[n - 1];
+        attrs_ser(attrs, n - 1) + b" "@ + attr_prefix(a.0.ns, a.0.local) + local_bytes(a.0.local.0) + b"=\""@
+            + spec_escape(a.1.spec_bytes(), true) + b"\""@
+    }
+}
+/// elements serialized without children and without an end tag
+pub open spec fn void_elem(name: QualName) -> bool {
+    name.ns == ns!(html) && (name.local == local_name!("area") || name.local == local_name!("base") || name.local == local_name!("basefont")
+        || name.local == local_name!("bgsound") || name.local == local_name!("br") || name.local == local_name!("col")
+        || name.local == local_name!("embed") || name.local == local_name!("frame") || name.local == local_name!("hr")
+        || name.local == local_name!("img") || name.local == local_name!("input") || name.local == local_name!("keygen")
+        || name.local == local_name!("link") || name.local == local_name!("meta") || name.local == local_name!("param")
+        || name.local == local_name!("source") || name.local == local_name!("track") || name.local == local_name!("wbr"))
+}
